@@ -241,6 +241,9 @@ func main() {
 		if err == nil {
 			err = corr.CloseAfterReconnect(res, *seed)
 		}
+		if err == nil {
+			err = corr.NotifyInOutageThenClose(res, *seed)
+		}
 	case "C05":
 		res.Rule = "backoff: grid of (minDelay, maxDelay) x attempts -2..N x repetitions (implementation's own jitter); distinct = (min, max, attempt); non-trivial = delay still growing (or every 50th capped attempt); plus reconnect scenarios through the proxy (outage with k refused redials x error mapping on/off with an untagged and a retry-tagged call in flight and a call issued in the window; a server that drops every connection right after the upgrade; a no-reconnect client; keepalive after a heal): redial events with hook times replayed through Jrpc.Redial, retry attempts compared with Jrpc.Redial.retryLoop"
 		err = c05.RunBackoff(d, res, thorough, corpus)
@@ -279,6 +282,9 @@ func main() {
 			}
 			if err == nil {
 				err = c19.RunNoCtx(d, res)
+			}
+			if err == nil {
+				err = c19.RunMethods(d, res)
 			}
 			res.Exhaustive = err == nil
 		}
